@@ -91,6 +91,17 @@ v('c15-benign-helper', 'benign', ['C15', 'C08', 'C09'], T,
 v('c14-no-init', 'break', ['C14'], U, ('    hunk_modified_i = 0\n    line_num = 0\n', '    hunk_modified_i = 0\n'))
 v('c14-marker-counts', 'break', ['C14'], U, ("            elif line.strip() != NO_NEWLINE_MARKER:\n                # We shouldn't have encountered this. This will be a corrupt\n                # diff. We'll process this at the end of this loop iteration.\n                found_garbage = True",
                                              "            elif line.strip() != NO_NEWLINE_MARKER:\n                found_garbage = True\n            else:\n                hunk_orig_i += 1"))
+v('c14-geo-last-changed-before', 'break', ['C14'], U,
+  ("                cur_hunk_modified['num_lines_changed'] += 1\n                cur_hunk_modified['last_changed_line'] = \\\n                    cur_hunk_modified['start_line'] + hunk_modified_i\n\n                total_inserts += 1\n                hunk_modified_i += 1",
+   "                cur_hunk_modified['num_lines_changed'] += 1\n                total_inserts += 1\n                hunk_modified_i += 1\n                cur_hunk_modified['last_changed_line'] = \\\n                    cur_hunk_modified['start_line'] + hunk_modified_i"))
+v('c14-geo-start-one-based', 'break', ['C14'], U, ("'start_line': modified_start - 1,", "'start_line': modified_start,"))
+v('c14-geo-context-bumps-one-side', 'break', ['C14'], U, ("                hunk_orig_i += 1\n                hunk_modified_i += 1\n            elif line.strip()", "                hunk_orig_i += 1\n            elif line.strip()"))
+v('c14-geo-benign-redundant-reset', 'benign', ['C14'], U, ("                hunk_orig_i = 0\n                hunk_modified_i = 0\n            else:", "                hunk_orig_i = 0\n            else:"))
+v('c14-geo-no-reset', 'break', ['C14'], U, ("                hunk_orig_i = 0\n                hunk_modified_i = 0\n            else:", "                hunk_orig_i = 0\n            else:"),
+  ("            cur_hunk_entry = None\n            hunk_orig_i = 0\n            hunk_modified_i = 0\n", "            cur_hunk_entry = None\n            hunk_orig_i = 0\n"))
+v('c14-geo-default-count-zero', 'break', ['C14'], U, ("m.group('modified_num_lines') or '1')", "m.group('modified_num_lines') or '0')"))
+v('c14-geo-benign-reorder', 'benign', ['C14', 'C13'], U,
+  ("                total_deletes += 1\n                hunk_orig_i += 1\n", "                hunk_orig_i += 1\n                total_deletes += 1\n"))
 v('c14-benign-tuple-init', 'benign', ['C14', 'C13'], U, ('    hunk_modified_i = 0\n    line_num = 0\n', '    hunk_modified_i, line_num = 0, 0\n'))
 v('c13-overwrite-stats', 'break', ['C13'], O,
   ("        if 'stats' in self.meta:\n            self.meta['stats'].update(stats)\n        else:\n            self.meta['stats'] = stats\n\n    def _setup_state(self):\n        \"\"\"Set up subsections and subsection-related state.\"\"\"\n        self.meta_section = DiffXMetaSection(parent_section=self)\n        self.diff_section",
